@@ -611,10 +611,18 @@ fn shake_0(expression: Expression) -> Expression {
                 }
             }
         }
-        Expression::Match(m, expression) => {
-            let expression = shake_0(*expression);
-            Expression::Match(m, Box::new(expression))
-        }
+        Expression::Match(m, expression) => match *expression {
+            // NOTE: The group that a match counts over must stay a group, even when it is left with
+            // a single entry, because `all(x)` over a merged search counts the members of the search.
+            Expression::BooleanGroup(symbol, expressions) => {
+                let mut scratch = vec![];
+                for expression in expressions {
+                    scratch.push(shake_0(expression));
+                }
+                Expression::Match(m, Box::new(Expression::BooleanGroup(symbol, scratch)))
+            }
+            expression => Expression::Match(m, Box::new(shake_0(expression))),
+        },
         Expression::Negate(expression) => {
             let expression = shake_0(*expression);
             match expression {
